@@ -246,6 +246,31 @@ func genH1(g *Gen) {
 		}
 		return g.Bytes(msgLens[g.Intn(len(msgLens))])
 	}
+	// msg_prime = Z_pad(r) ‖ msg ‖ l_i_b(2) ‖ 0 ‖ DST ‖ len(DST): total sizes around every multiple of 32 up to 512 and around
+	// 256/512/1024 (buffer sizes an implementation might assemble it in), for two hashes and two DST lengths
+	for _, hn := range []string{"256", "512"} {
+		r := map[string]int{"256": 64, "512": 128}[hn]
+		for _, dl := range []int{16, 40} {
+			var totals []int
+			for k := 0; k <= 16; k++ {
+				for d := -2; d <= 2; d++ {
+					totals = append(totals, r+32*k+d)
+				}
+			}
+			for _, c := range []int{1024} {
+				for d := -2; d <= 2; d++ {
+					totals = append(totals, c+d)
+				}
+			}
+			for _, t := range totals {
+				ml := t - r - 3 - dl - 1
+				if ml < 0 || g.Full() {
+					continue
+				}
+				g.Emit("xmd.msgprime-size", "H1", "xmd", hn, hx(g.Bytes(dl)), hx(g.Bytes(ml)), "32")
+			}
+		}
+	}
 	for round := 0; !g.Full(); round++ {
 		for hi, hn := range hashes {
 			b := h2cHashSize[hn]
